@@ -148,7 +148,7 @@ Fixpoint is_prefix (p s : str) : bool :=
 Fixpoint contains (s sub : str) : bool :=
   is_prefix sub s || match s with [] => false | _ :: s' => contains s' sub end.
 
-(* the string literals of getStrategy (topology.go:95-119) *)
+(* the string literals of getStrategy (getStrategy) *)
 Definition k_class : str := str_of "class".
 Definition k_replication_factor : str := str_of "replication_factor".
 Definition k_simple : str := str_of "SimpleStrategy".
@@ -195,10 +195,10 @@ Definition sort_search (n : nat) (f : nat -> bool) : nat := bsearch n f 0 n.
 
 (* ---- results -------------------------------------------------------------------------------- *)
 Inductive crash :=
-| PanicOverflow        (* "replica overflow. rf=%d have=%d in dc %q"          topology.go:250 *)
-| PanicNoReplicas      (* "no replicas for token: %v"                         topology.go:298 *)
-| PanicNotPrimary      (* "first replica is not the primary replica ..."      topology.go:300 *)
-| PanicSize.           (* "token map different size to token ring: ..."       topology.go:314 *)
+| PanicOverflow        (* "replica overflow. rf=%d have=%d in dc %q"          networkTopology.replicaMap *)
+| PanicNoReplicas      (* "no replicas for token: %v"                         same function *)
+| PanicNotPrimary      (* "first replica is not the primary replica ..."      same function *)
+| PanicSize.           (* "token map different size to token ring: ..."       same function *)
 
 Inductive res (A : Type) := Ok (a : A) | Crash (c : crash).
 Arguments Ok {A} a.
@@ -279,7 +279,7 @@ Section Ring.
   (* HostInfo.Equal: same pointer, or equal connect addresses *)
   Definition host_equal (a b : Z) : bool := (a =? b) || (hi_addr (info a) =? hi_addr (info b)).
 
-  (* dcRacks: dc -> set of racks, from tokenRing.hosts (lines 190-200) *)
+  (* dcRacks: dc -> set of racks, from tokenRing.hosts (first loop of replicaMap) *)
   Definition add_host_rack (m : amap (list str)) (h : Z) : amap (list str) :=
     let racks := getl m (dc_of h) in
     aset m (dc_of h) (if smem (rack_of h) racks then racks else racks ++ [rack_of h]).
@@ -300,7 +300,7 @@ Section Ring.
   Definition have_rf (counts : amap Z) : bool :=
     (length counts =? length dcs)%nat && forallb (fun e => snd e =? getz counts (fst e)) dcs.
 
-  (* the state the three maps are reset to at the top of every token iteration (lines 202-205, 221-230):
+  (* the state the three maps are reset to at the top of every token iteration (the resets at the top of the token loop):
      skipped[*] emptied; replicasInDC has a zero for every ring DC and every keyspace DC; every
      seenDCRacks set is empty (sets of DCs outside the keyspace are never written) *)
   Definition counts0 : amap Z :=
@@ -314,7 +314,7 @@ Section Ring.
     | x :: sk' => if r <? rf then x :: drain sk' (r + 1) rf else []
     end.
 
-  (* one iteration of the inner loop body (lines 235-294) *)
+  (* one iteration of the inner loop body (after the seenHosts test) *)
   Definition nts_step (st : nts_state) (h : Z) : res nts_state :=
     let dc := dc_of h in
     let rack := rack_of h in
@@ -350,21 +350,23 @@ Section Ring.
   Definition nts_guard (st : nts_state) : bool :=
     (Z.of_nat (length (ns_replicas st)) <? total_rf) && negb (have_rf (ns_count st)).
 
-  Fixpoint nts_loop (walk : list Z) (st : nts_state) : res nts_state :=
+  (* [seen_hosts] is the seenHosts set: another token of a host already been through is passed over *)
+  Fixpoint nts_loop (walk : list Z) (seen_hosts : list Z) (st : nts_state) : res nts_state :=
     match walk with
     | [] => Ok st
     | h :: rest =>
         if nts_guard st
-        then match nts_step st h with
-             | Ok st' => nts_loop rest st'
-             | Crash c => Crash c
-             end
+        then if zmem h seen_hosts then nts_loop rest seen_hosts st
+             else match nts_step st h with
+                  | Ok st' => nts_loop rest (h :: seen_hosts) st'
+                  | Crash c => Crash c
+                  end
         else Ok st
     end.
 
-  (* the replicas of ring entry i whose host is th (lines 221-301) *)
+  (* the replicas of ring entry i whose host is th  *)
   Definition nts_token (ring_hosts : list Z) (i : nat) (th : Z) : res (list Z) :=
-    match nts_loop (rotate i ring_hosts) nts_state0 with
+    match nts_loop (rotate i ring_hosts) [] nts_state0 with
     | Crash c => Crash c
     | Ok st =>
         match ns_replicas st with
@@ -373,7 +375,7 @@ Section Ring.
         end
     end.
 
-  (* the outer loop (lines 215-304): entries of DCs with factor 0 are skipped *)
+  (* the outer loop : entries of DCs with factor 0 are skipped *)
   Fixpoint nts_outer (ring_hosts : list Z) (l : list (nat * (T * Z))) (acc : rmap) : res rmap :=
     match l with
     | [] => Ok acc
@@ -385,17 +387,19 @@ Section Ring.
              end
     end.
 
-  Definition dcs_with_replicas : nat := length (filter (fun e => snd e >? 0) dcs).
+  (* the DCs of the ring (keys of dcRacks) that have a positive factor *)
+  Definition dcs_with_replicas : nat :=
+    length (filter (fun e => match aget dc_racks (fst e) with Some _ => snd e >? 0 | None => false end) dcs).
 End Ring.
 
 
-(* networkTopology.replicaMap (lines 181-318) *)
+(* networkTopology.replicaMap  *)
 Definition nts_replica_map {T} (info : Z -> hinfo) (dcs : amap Z) (hosts : list Z) (r : @ring T) : res (@rmap T) :=
   let dc_racks := mk_dc_racks info hosts in
   match nts_outer info dcs dc_racks (map snd r) (indexed r) [] with
   | Crash c => Crash c
   | Ok m =>
-      if (dcs_with_replicas dcs =? length dc_racks)%nat && negb (length m =? length r)%nat
+      if (dcs_with_replicas dcs dc_racks =? length dc_racks)%nat && negb (length m =? length r)%nat
       then Crash PanicSize
       else Ok m
   end.
